@@ -282,3 +282,267 @@ class FormatTask(CoreTask):
 
 def format_tasks(root, timeout_ms=10000):
     return [FormatTask(root, w, timeout_ms) for w in ("check", "conforms", "keyword", "guards")]
+
+
+# ---------------------------------------------------------------------------------------------------
+# C13: the repository's own part of the built-in format functions, by symbolic execution
+
+dep_v4 = z3.Function("ipaddress_IPv4Address_accepts", smt.S, smt.B)      # ipaddress.IPv4Address(s) returns (else AddressValueError)
+dep_v6 = z3.Function("ipaddress_IPv6Address_accepts", smt.S, smt.B)
+dep_v6_scope = z3.Function("ipaddress_IPv6Address_scope_id", smt.S, smt.S)   # .scope_id of the parsed address ('' when none)
+dep_re = z3.Function("re_compile_accepts", smt.S, smt.B)                 # re.compile(s) returns (else re.error / OverflowError)
+dep_iso = z3.Function("date_fromisoformat_accepts", smt.S, smt.B)        # date.fromisoformat(s) returns (else ValueError)
+dep_hms = z3.Function("strptime_HMS_accepts", smt.S, smt.B)
+
+EXC_PARENTS.setdefault("AddressValueError", "ValueError")
+EXC_PARENTS.setdefault("error", "Exception")          # re.error
+
+
+class AddrV:
+    def __init__(self, s):
+        self.s = s
+
+
+class RegexV:
+    """a compiled pattern of the repository: its language as an SMT regular expression"""
+    def __init__(self, r, text):
+        self.r, self.text = r, text
+
+
+class DepFn:
+    def __init__(self, name):
+        self.name = name
+
+
+def sre_to_z3(pattern, ascii_flag):
+    """Python regular expression -> z3 regular expression for the subset: literals, ., classes with ranges and
+    \\d, repetition, groups, alternation, ^ $ anchors at the ends (for fullmatch: `$` cannot consume the final
+    newline, so under fullmatch it matches only at the very end).  Parsing is Python's own (re._parser)."""
+    try:
+        import re._parser as sp      # 3.11+
+        import re._constants as sc
+    except ImportError:      # pragma: no cover
+        import sre_parse as sp
+        import sre_constants as sc
+    digit = z3.Range("0", "9")
+    if not ascii_flag:
+        raise OutOfSubset("\\d without re.ASCII matches every Unicode decimal digit: not expressible here")
+
+    def seq(items):
+        rs = [one(op, av) for op, av in items]
+        rs = [r for r in rs if r is not None]
+        if not rs:
+            return z3.Re(z3.StringVal(""))
+        return rs[0] if len(rs) == 1 else z3.Concat(*rs)
+
+    def cls(av):
+        parts = []
+        neg = False
+        for op, a in av:
+            if op is sc.NEGATE:
+                neg = True
+            elif op is sc.LITERAL:
+                parts.append(z3.Re(z3.StringVal(chr(a))))
+            elif op is sc.RANGE:
+                parts.append(z3.Range(chr(a[0]), chr(a[1])))
+            elif op is sc.CATEGORY and a is sc.CATEGORY_DIGIT:
+                parts.append(digit)
+            else:
+                raise OutOfSubset("regex class item %s" % (op,))
+        r = parts[0] if len(parts) == 1 else z3.Union(*parts)
+        if neg:
+            r = z3.Intersect(z3.AllChar(z3.ReSort(smt.S)), z3.Complement(r))
+        return r
+
+    def one(op, av):
+        if op is sc.LITERAL:
+            return z3.Re(z3.StringVal(chr(av)))
+        if op is sc.IN:
+            return cls(av)
+        if op is sc.MAX_REPEAT or op is sc.MIN_REPEAT:
+            lo, hi, sub = av
+            r = seq(list(sub))
+            if hi is sc.MAXREPEAT:
+                return z3.Concat(z3.Loop(r, lo, lo), z3.Star(r)) if lo else z3.Star(r)
+            return z3.Loop(r, lo, hi)
+        if op is sc.SUBPATTERN:
+            return seq(list(av[3]))
+        if op is sc.BRANCH:
+            return z3.Union(*[seq(list(b)) for b in av[1]])
+        if op is sc.AT:
+            if av in (sc.AT_BEGINNING, sc.AT_BEGINNING_STRING, sc.AT_END, sc.AT_END_STRING):
+                return None      # positions checked below
+            raise OutOfSubset("regex anchor %s" % (av,))
+        if op is sc.ANY:
+            return z3.Intersect(z3.AllChar(z3.ReSort(smt.S)), z3.Complement(z3.Re(z3.StringVal("\n"))))
+        raise OutOfSubset("regex construct %s" % (op,))
+    parsed = list(sp.parse(pattern, sc.SRE_FLAG_ASCII if ascii_flag else 0))
+    for i, (op, av) in enumerate(parsed):
+        if op is sc.AT and av in (sc.AT_BEGINNING, sc.AT_BEGINNING_STRING) and i != 0:
+            raise OutOfSubset("^ inside the pattern")
+        if op is sc.AT and av in (sc.AT_END, sc.AT_END_STRING) and i != len(parsed) - 1:
+            raise OutOfSubset("$ inside the pattern")
+    return seq(parsed)
+
+
+SPEC_DATE = z3.Concat(z3.Loop(z3.Range("0", "9"), 4, 4), z3.Re(z3.StringVal("-")), z3.Loop(z3.Range("0", "9"), 2, 2),
+                      z3.Re(z3.StringVal("-")), z3.Loop(z3.Range("0", "9"), 2, 2))      # RFC 3339 full-date shape
+
+
+def _module_regexes(repo):
+    """module-level NAME = re.compile(<str constant>[, flags]) of _format.py"""
+    out = {}
+    for n in ast.walk(repo.trees["_format"]):
+        if isinstance(n, ast.Assign) and len(n.targets) == 1 and isinstance(n.targets[0], ast.Name) and isinstance(n.value, ast.Call) and \
+                ast.unparse(n.value.func) == "re.compile" and n.value.args and isinstance(n.value.args[0], ast.Constant) and isinstance(n.value.args[0].value, str):
+            flags = " ".join(ast.unparse(a) for a in n.value.args[1:]) + " ".join(ast.unparse(k.value) for k in n.value.keywords)
+            out[n.targets[0].id] = (n.value.args[0].value, flags)
+    return out
+
+
+def _module_aliases(repo):
+    """NAME = dotted.name at module level (also inside if/try), e.g. _is_date = datetime.date.fromisoformat"""
+    out = {}
+    for n in ast.walk(repo.trees["_format"]):
+        if isinstance(n, ast.Assign) and len(n.targets) == 1 and isinstance(n.targets[0], ast.Name) and isinstance(n.value, (ast.Attribute, ast.Name)):
+            out.setdefault(n.targets[0].id, set()).add(ast.unparse(n.value))
+    return out
+
+
+WRAPPER_SPECS = {
+    # function -> (spec of "accepts" over the string s, exceptions that may escape = the registered `raises`)
+    "is_email": lambda s: z3.Contains(s, z3.StringVal("@")),
+    "is_ipv4": lambda s: dep_v4(s),
+    "is_ipv6": lambda s: z3.And(dep_v6(s), dep_v6_scope(s) == z3.StringVal("")),
+    "is_regex": lambda s: dep_re(s),
+    "is_date": lambda s: z3.And(z3.InRe(s, SPEC_DATE), dep_iso(s)),
+    "is_draft3_time": lambda s: dep_hms(s),
+}
+
+
+def _run_wrappers(self, res):
+    """For every string s: each built-in function of the repository itself (email, ipv4, ipv6, regex, date, draft-3 time)
+    returns a truthy value exactly when its specification over the assumed dependency contracts holds, and lets
+    nothing escape but the exceptions registered for it (which check turns into FormatError, C12)."""
+    from pyvc import driver
+    from pyvc.interp import branch
+    repo = extract.Repo(self.root)
+    reg = driver.rt_call("pyvc.rt_fmt", {"cmd": "registry", "root": self.root}, self.root)
+    raises_of = {}
+    for chk in reg["checkers"].values():
+        for e in chk.values():
+            raises_of.setdefault(e["func"], set()).update(e["raises"])
+    regexes, aliases = _module_regexes(repo), _module_aliases(repo)
+    res["function"] = "_format:{%s}" % ",".join(sorted(WRAPPER_SPECS))
+    hashes = ""
+    npaths = 0
+    for fname in sorted(WRAPPER_SPECS):
+        key = "_format:%s" % fname
+        if fname not in raises_of:
+            continue      # not registered in this installation
+        if key not in repo.units:
+            res["obligations"].append({"name": "%s/T/source:%s" % (self.name, fname), "kind": "T", "status": "failed", "solver": "tables", "note": "no source for %s" % fname})
+            continue
+        unit = repo.unit(key)
+        hashes += unit.source_hash()
+        ctx = Ctx(repo, contracts={}, config={})
+        inst = SV(z3.Const("instance", V))
+        s_ = smt.sval(inst.t)
+
+        def dep(acc, excs):
+            def f(I, st, *a):
+                cases = [(acc, lift(True))] + [(z3.Not(acc), Raised(ExcVal(e, {}, origin="dependency"))) for e in excs]
+                return branch(I.ctx, st, cases)
+            return f
+
+        def builtin_hook(I, st, name, a, k, node, s_=s_):
+            same = a and isinstance(a[0], SV) and a[0].t.eq(inst.t)
+            if name == "ipaddress.IPv4Address" and same:
+                return branch(I.ctx, st, [(dep_v4(s_), lift(True)), (z3.Not(dep_v4(s_)), Raised(ExcVal("AddressValueError", {}, origin="ipaddress")))])
+            if name == "ipaddress.IPv6Address" and same:
+                return branch(I.ctx, st, [(dep_v6(s_), AddrV(s_)), (z3.Not(dep_v6(s_)), Raised(ExcVal("AddressValueError", {}, origin="ipaddress")))])
+            if name == "re.compile" and same and len(a) == 1:
+                return branch(I.ctx, st, [(dep_re(s_), lift(True)), (z3.Not(dep_re(s_)), Raised(ExcVal("error", {}, origin="re.compile"))),
+                                          (z3.Not(dep_re(s_)), Raised(ExcVal("OverflowError", {}, origin="re.compile")))])
+            if name == "datetime.datetime.strptime" and same and len(a) == 2 and isinstance(a[1], SV) and a[1].known and a[1].conc == "%H:%M:%S":
+                return branch(I.ctx, st, [(dep_hms(s_), lift(True)), (z3.Not(dep_hms(s_)), Raised(ExcVal("ValueError", {}, origin="strptime")))])
+            if name == "datetime.date.fromisoformat" and same:
+                return branch(I.ctx, st, [(dep_iso(s_), lift(True)), (z3.Not(dep_iso(s_)), Raised(ExcVal("ValueError", {}, origin="fromisoformat")))])
+            if name == "getattr" and len(a) == 3 and isinstance(a[0], AddrV) and isinstance(a[1], SV) and a[1].known and a[1].conc == "scope_id":
+                return [(st, SStr(dep_v6_scope(a[0].s)))]
+            if name == "bool" and len(a) == 1:
+                return [(st, SB(truth(I.ctx, st, a[0])))]
+            return None
+
+        def global_hook(m, name):
+            if m == "_format" and name in regexes:
+                pat, flags = regexes[name]
+                return RegexV(sre_to_z3(pat, "ASCII" in flags or "re.A" in flags.split()), pat)
+            if m == "_format" and name in aliases and name.startswith("_is_"):
+                tg = aliases[name]
+                if tg == {"datetime.date.fromisoformat"}:
+                    return DepFn("datetime.date.fromisoformat")
+                raise OutOfSubset("alias %s = %s" % (name, sorted(tg)))
+            return None
+
+        def getattr_hook(I, st, obj, attr):
+            if isinstance(obj, RegexV):
+                return [(st, BoundMethod(obj, attr))]
+            return None
+
+        def method_hook(I, st, obj, name, a, k, node):
+            if isinstance(obj, RegexV) and name == "fullmatch" and len(a) == 1 and isinstance(a[0], SV):
+                m = z3.InRe(smt.sval(a[0].t), obj.r)
+                return branch(I.ctx, st, [(m, lift(True)), (z3.Not(m), lift(None))])
+            if isinstance(obj, RegexV):
+                raise OutOfSubset("regex method %s" % name)
+            if isinstance(obj, Builtin) and obj.name in ("datetime.datetime", "datetime.date"):
+                return builtin_hook(I, st, obj.name + "." + name, a, k, node)
+            return None
+
+        def call_hook(I, st, f, a, k, node):
+            if isinstance(f, DepFn):
+                return builtin_hook(I, st, f.name, a, k, node)
+            return None
+        ctx.config.update(builtin_hook=builtin_hook, global_hook=global_hook, getattr_hook=getattr_hook, method_hook=method_hook, call_hook=call_hook)
+        I = Interp(ctx)
+        st = State()
+        st.unit = unit
+        st.pc.append(kind(inst.t) == K_STR)
+        try:
+            outs = I.run_unit(unit, st, [inst], {})
+        except OutOfSubset as e:
+            res["obligations"].append({"name": "%s/F/accepts:%s" % (self.name, fname), "kind": "F", "status": "unknown", "solver": "pyvc",
+                                       "note": "%s leaves the verified subset: %s" % (fname, e), "reason": "out of subset: %s" % e})
+            continue
+        spec = WRAPPER_SPECS[fname](s_)
+        listed = raises_of[fname]
+        obls = list(ctx.obligations)
+        for n, (s, ctl) in enumerate(outs):
+            npaths += 1
+            if ctl[0] == "raise":
+                cls_ = ctl[1].cls
+                ok = cls_ in listed or any(EXC_PARENTS.get(cls_) == l for l in listed)
+                obls.append(core.Obligation("%s/S/%s.raises:%s#%d" % (self.name, fname, cls_, n + 1), "S", s.pc,
+                                            z3.And(z3.BoolVal(bool(ok)), z3.Not(spec)),
+                                            note="%s lets only its registered exceptions %s escape, and only for strings outside the grammar" % (fname, sorted(listed))))
+            else:
+                v = ctl[1]
+                t = z3.BoolVal(True) if isinstance(v, AddrV) else truth(ctx, s, v)
+                obls.append(core.Obligation("%s/F/%s.accepts#%d" % (self.name, fname, n + 1), "F", s.pc, t == spec,
+                                            note="%s(s) is truthy exactly when s is in its grammar (over the assumed dependency contract)" % fname))
+        self.finish(res, ctx, obls)
+    res["paths"] = npaths
+    res["source_hash"] = hashes
+    if any(o["status"] != "discharged" for o in res["obligations"]):
+        try:
+            res["search"] = driver.rt_call("pyvc.rt_fmt", {"cmd": "search", "root": self.root, "limit": 3}, self.root, timeout=3000)
+        except Exception as e:      # noqa
+            res["search"] = {"failures": [], "error": str(e)[-300:]}
+
+
+FormatTask._run_wrappers = _run_wrappers
+
+
+def wrapper_tasks(root, timeout_ms=10000):
+    return [FormatTask(root, "wrappers", timeout_ms)]
